@@ -896,6 +896,14 @@ pub fn check_date_text(out: &mut RunOut, text: &str, carrier: Carrier, tp: &mut 
         (IsoClass::MustReject, _) | (_, None) => {
             out.probe("date_must_reject");
             let now = refm::instant_of_civil(2015, 8, 30, 12, 36, 0, 0);
+            // sequence on one thread: a good timestamp for the same instant first, then the
+            // malformed one twice in a row — refused every time, whatever was parsed before
+            let _ = deliver_with_date(&refm::compact_utc(now), now, now, carrier, tp);
+            if let Some((o, _)) = deliver_with_date(text, now, now, carrier, tp) {
+                if !is_date_format_error(&o) {
+                    out.violate("C16", "malformed-date-is-format-error-400", format!("date {:?} ({:?} carrier), first attempt after a well-formed one: library says {}", text, carrier, o.short()));
+                }
+            }
             if let Some((o, ev)) = deliver_with_date(text, now, now, carrier, tp) {
                 if !is_date_format_error(&o) {
                     out.violate("C16", "malformed-date-is-format-error-400", format!("date {:?} ({:?} carrier): library says {}", text, carrier, o.short()));
